@@ -57,7 +57,7 @@ void gen_hist_ops(Rng& g, Rng& fr, const std::string& prop, unsigned nops, bool 
       case OP_NEW_DEF_MAP: o.a = small_cap(g); n_map++; break;
       case OP_NEW_INDEF_MAP: n_map++; break;
       case OP_NEW_INDEF_BSTR: case OP_NEW_INDEF_TSTR: n_istr++; break;
-      case OP_NEW_TAG: case OP_BUILD_TAG: o.c = gen_u64(g); n_tag++; break;
+      case OP_NEW_TAG: case OP_BUILD_TAG: { static const uint64_t IANA[] = {0, 1, 2, 3, 4, 5, 16, 17, 18, 21, 22, 23, 24, 32, 33, 34, 35, 36, 37, 100, 258, 1004, 55799}; o.c = g.chance(1, 3) ? IANA[g.below(sizeof IANA / sizeof IANA[0])] : gen_u64(g); n_tag++; break; }
       case OP_PUSH_MANY: { static const uint64_t C[] = {3, 8, 22, 23, 24, 25, 64, 254, 255, 256, 257, 1000, 3000}; o.c = (prop == "C03" && g.chance(1, 6)) ? g.range(65534, 65537) : C[g.below(sizeof C / sizeof C[0])]; if (nops > 40 && o.c > 300) o.c = 300; o.c -= 1; break; }
       case OP_SET: case OP_REPLACE: case OP_GET: o.c = g.below(64); break;
       case OP_RESET_HANDLE: o.c = g.below(400); break;
